@@ -7,7 +7,7 @@ META = dict(
     level="model_checking",
     bounds="kinds: hosted sparse KDMV with header- and footer-located grain directory, stream-optimized (compressed, with "
            "and without embedded LBA), ESX COWD, SE-sparse, flat; grain size {8, 128, 2048} x grain-table length {512, 4096} "
-           "(quick: a subset); request <= N grains (1; thorough 2 for KDMV 128/512, COWD 8 and SE-sparse 8/64) at any sector; file size, capacity (<= 2^50 "
+           "(quick: a subset); request <= N grains (1; thorough 2 for KDMV 128/512) at any sector; file size, capacity (<= 2^50 "
            "sectors), directory/table/grain placement, every GD/GT entry, grain headers and the request symbolic; reads past "
            "EOF are short (the file size is observable by the reader)",
     outside=["embedded text descriptor (descriptor_size pinned to 0; C14/C10)", "marker scanning of stream-optimized files "
@@ -40,10 +40,10 @@ def tasks(tier):
                 out.append(("read", dict(kind="kdmv", grain_size=gs, ngte=ngte, n_grains=n if (ngte == 512 and gs == 128) else 1)))
                 out.append(("read", dict(kind="kdmv_footer", grain_size=gs, ngte=ngte, flags=C | L, n_grains=1)))
             out.append(("read", dict(kind="kdmv", grain_size=gs, ngte=512, flags=C, n_grains=1)))
-            out.append(("read", dict(kind="cowd", grain_size=gs, n_grains=n if gs == 8 else 1)))
+            out.append(("read", dict(kind="cowd", grain_size=gs, n_grains=1)))
             out.append(("read", dict(kind="kdmv", grain_size=gs, ngte=512, n_grains=1, tail=True)))
         for gt in (1, 64):
-            out.append(("read", dict(kind="sesparse", grain_size=8, gt_sectors=gt, n_grains=n if gt == 64 else 1)))
+            out.append(("read", dict(kind="sesparse", grain_size=8, gt_sectors=gt, n_grains=1)))
         out.append(("read", dict(kind="sesparse", grain_size=8, gt_sectors=64, n_grains=1, tail=True)))
         out.append(("read", dict(kind="cowd", grain_size=128, n_grains=1, via="disk")))
         out.append(("flat", dict(max_count=1 << 15, tail=True)))
